@@ -269,8 +269,15 @@ func eq(a, b string) string {
 // sel builds (select a i), simplifying select-of-store at the syntactically same index.
 func sel(a, i string) string {
 	if strings.HasPrefix(a, "(store ") {
-		if args := splitSExprArgs(a[len("(store ") : len(a)-1]); len(args) == 3 && args[1] == i {
-			return args[2]
+		if args := splitSExprArgs(a[len("(store ") : len(a)-1]); len(args) == 3 {
+			if args[1] == i {
+				return args[2]
+			}
+			// an object allocated in this activation (new!N) is neither a parameter (bound at entry) nor another
+			// allocation: the store at it does not concern the read
+			if isAllocSym(args[1]) && (strings.HasPrefix(i, "p$") && !strings.ContainsAny(i, " ()") || isAllocSym(i)) {
+				return sel(args[0], i)
+			}
 		}
 	}
 	return "(select " + a + " " + i + ")"
@@ -326,4 +333,16 @@ func sortedKeys[V any](m map[string]V) []string {
 	}
 	sort.Strings(ks)
 	return ks
+}
+
+func isAllocSym(t string) bool {
+	if !strings.HasPrefix(t, "new!") {
+		return false
+	}
+	for _, c := range t[4:] {
+		if c < '0' || c > '9' {
+			return false
+		}
+	}
+	return len(t) > 4
 }
